@@ -34,7 +34,7 @@ class Ob:
 
     def __init__(self, id, prop, params, body, pre=None, replay=None, funcs=(), skeleton="",
                  bound="", timeout=30.0, opaque_repr=True, region=None, struct_model=True,
-                 oracle="", setup=None):
+                 oracle="", setup=None, direct=None):
         self.id = id
         self.prop = prop
         self.params = list(params)
@@ -50,6 +50,9 @@ class Ob:
         self.struct_model = struct_model
         self.oracle = oracle
         self.setup = setup
+        # direct: callable() -> (verdict, detail, cex|None, n_queries, solver_s): an obligation discharged by
+        # a direct SMT query (engine/smt.py) instead of CrossHair (E2, DESIGN 2.5)
+        self.direct = direct
 
     def describe(self):
         return {
@@ -205,6 +208,15 @@ def run_one(idx):
         for k in _STATS:
             _STATS[k] = 0
         _LAST_CEX[0] = None
+        if ob.direct is not None:
+            sys.stdout, sys.stderr = saved
+            verdict, detail, cex, nq, st = ob.direct()
+            res.update({"verdict": verdict, "detail": detail, "cex": cex, "twin": "reached", "paths": 1,
+                        "completed": 1, "queries": nq, "solver_s": round(st, 3)})
+            if cex is not None:
+                res["cex_error"] = detail
+            res["wall_s"] = round(time.perf_counter() - t0, 3)
+            return res
         # reachability twin first
         tw = _analyze(_build(ob, True), min(ob.timeout, 20.0))
         twin_ok = any(s in ("POST_FAIL", "EXEC_ERR", "POST_ERR") and "twin-reached" in (m or "")
